@@ -513,3 +513,49 @@ def c16_cumulative(v):
              "C16:lemma:cum:step", "cum(h) = cum(h-1) + subsidy(h)")
     s2 = st.fork().assume(v.spec_bool("h >= 0", st))
     v.oblige(s2, v.spec_bool("G.cum_subsidy(h) <= %d" % DOC_MAX_SUPPLY, s2), "C16:lemma:cum:bounded-by-maximum", "cum(h) <= maximum supply")
+
+
+# ---------------------------------------------------------------------------------------------------- C03
+
+@LM.lemma("C03.replay", props=["C03"])
+def c03_replay(v):
+    """Inv-replay: for every stored block k, the unspent set stored at k is uto_apply_block applied to the set stored at
+    k's parent (the empty set for a root) and block k - i.e. the fold of uto_apply_block along k's own ancestors, whatever
+    else is stored and in whatever order it arrived.  Established by the empty state, preserved by every arrival
+    (pointwise, from the whole-view post-condition of add_block_no_validation)."""
+    from pyvc import CLS, BYTES
+    from pyvc.proof import Proof
+    st = _lemma_state(v, 'skepticoin.coinstate')
+    cs = v.fresh('cs', CLS('CoinState'))
+    block = v.fresh('block', CLS('Block'))
+    st.frame.vars.update(cs=cs, block=block)
+    P = Proof(v, st, "C03:lemma:replay:")
+    P.let('h', "block.hash()")
+    P.let('prev', "block.header.summary.previous_block_hash")
+    k0 = P.fresh('k0', BYTES)
+    REPLAY = ("implies(%(k)s in %(cs)s.block_by_hash, %(k)s in %(cs)s.unspent_transaction_outs_by_hash and "
+              "same(%(cs)s.unspent_transaction_outs_by_hash[%(k)s], uto_apply_block("
+              "ite(%(cs)s.block_by_hash[%(k)s].header.summary.previous_block_hash == ZERO32, EMPTY_UTXO,"
+              " %(cs)s.unspent_transaction_outs_by_hash[%(cs)s.block_by_hash[%(k)s].header.summary.previous_block_hash]),"
+              " %(cs)s.block_by_hash[%(k)s])))")
+    # the arriving block is new; no stored block names it as parent (parents arrive before children); ids are ids
+    P.assume('new', "h not in cs.block_by_hash and h != ZERO32 and prev != h")      # prev is stored or the null id
+    P.assume('k0-parent-not-new', "implies(k0 in cs.block_by_hash, cs.block_by_hash[k0].header.summary.previous_block_hash != h)")
+    P.assume('applies', "G.applies(cs, block)")
+    P.assume('inv@k0', REPLAY % {'k': 'k0', 'cs': 'cs'})
+    assert P.use('new-state', "skepticoin.coinstate.CoinState.add_block_no_validation", self=cs, block=block)
+    P.let('cs2', "cs.add_block_no_validation(block)")
+    P.have('preserved', REPLAY % {'k': 'k0', 'cs': 'cs2'},
+           using=['new', 'k0-parent-not-new', 'inv@k0', 'new-state[0]', 'new-state[1]'])
+    # earlier entries are untouched: the frame, stated on the maps (snapshots obtained earlier are these values)
+    P.have('earlier-entries-untouched',
+           "implies(k0 != h, same(cs2.unspent_transaction_outs_by_hash[k0], cs.unspent_transaction_outs_by_hash[k0])"
+           " and (k0 in cs2.block_by_hash) == (k0 in cs.block_by_hash))",
+           using=['new-state[0]', 'new-state[1]'])
+    # base: the empty state stores nothing
+    import skepticoin.coinstate as csmod
+    base = _lemma_state(v, 'skepticoin.coinstate')
+    outs = list(v.call_function(csmod.CoinState.empty.__func__, [csmod.CoinState], {}, base, inline=True))
+    b_st, empty = outs[0]
+    b_st.frame.vars.update(cs=empty, k0=k0)
+    v.oblige(b_st, v.spec_bool(REPLAY % {'k': 'k0', 'cs': 'cs'}, b_st), "C03:lemma:replay:established", "empty state")
